@@ -1,34 +1,75 @@
 (* C11 - judge of the race-detector observations against the lock table.
-   One case per (location, function, function) with conflicting access sites in the table; the
-   observation is whether the race detector reported a race whose two innermost sc-golang frames
-   are these two functions. *)
+   KPair: one case per (location, function, function) with conflicting access sites in the table; the
+     observation is whether the race detector reported a race whose two innermost sc-golang frames
+     are these two functions.
+   KReasons: the harness's own count, per accepting branch of [compatible] (reason_tag), of the ordered
+     conflicting site pairs of the table it extracted - must equal the model's count on Gen/Locks.v
+     (the table the theorems are about is the table the harness judged), and no pair may be unjustified.
+   KMutable: one case per location that is written after construction: the reasons that order those
+     writes against every conflicting site - recomputed here - and none may be missing. *)
 From SC Require Import Base.Prelude Race.Lockset Race.Known Gen.Locks.
 
-Inductive c11case := KPair (loc fa fb : string) (raced : bool).
+Inductive c11case :=
+| KPair (loc fa fb : string) (raced : bool)
+| KReasons (h : list (string * Z))
+| KMutable (loc : string) (late_writes : Z) (tags : list string).
 
 Definition in_fn (loc f : string) (s : site) : bool :=
   if String.eqb (s_loc s) loc then String.eqb (s_fn s) f else false.
 
 (* the model's verdict on the pair: every conflicting site pair of the two functions is compatible *)
 Definition pair_disciplined (tb : table) (loc fa fb : string) : bool :=
-  forallb (fun a => if in_fn loc fa a then
-     forallb (fun b => if in_fn loc fb b then (if pair_ok tb [] a b then pair_ok tb [] b a else false) else true) (t_sites tb)
-     else true) (t_sites tb).
+  let sa := filter (in_fn loc fa) (t_sites tb) in
+  let sb := filter (in_fn loc fb) (t_sites tb) in
+  forallb (fun a => forallb (fun b => if pair_ok tb [] a b then pair_ok tb [] b a else false) sb) sa.
 
 Definition pair_known (K : known) (loc fa fb : string) : bool :=
   existsb (fun k => match k with (x, f, g) =>
      String.eqb x loc && ((String.eqb f fa && String.eqb g fb) || (String.eqb f fb && String.eqb g fa)) end) K.
 
-(* model = observation: the detector is silent on a pair the table marks disciplined *)
-Definition agrees (c : c11case) : bool :=
-  match c with KPair loc fa fb raced => if raced then negb (pair_disciplined lock_table loc fa fb) else true end.
+(* histograms are compared as sorted association lists *)
+Fixpoint hist_get (k : string) (h : list (string * Z)) : Z :=
+  match h with [] => 0 | (k', n) :: r => if String.eqb k k' then n else hist_get k r end.
+Definition hist_le (a b : list (string * Z)) : bool :=
+  forallb (fun p => hist_get (fst p) b =? snd p) a.
+Definition hist_eqb (a b : list (string * Z)) : bool := hist_le a b && hist_le b a.
 
-(* the property on the observation: no race on this pair *)
-Definition C11_ok (c : c11case) : bool := match c with KPair _ _ _ raced => negb raced end.
+(* the reasons that order the post-construction writes of a location *)
+Definition insert_tag (k : string) (l : list string) : list string :=
+  if existsb (String.eqb k) l then l else k :: l.
+Definition late_reasons (tb : table) (loc : string) : Z * list string :=
+  let ss := filter (fun s => String.eqb (s_loc s) loc) (t_sites tb) in
+  let ws := filter late_write ss in
+  (Z.of_nat (List.length ws),
+   fold_left (fun acc a => fold_left (fun acc b =>
+      if conflict a b then insert_tag (reason_tag (why tb a b)) acc else acc) ss acc) ws []).
+Definition same_tags (a b : list string) : bool :=
+  forallb (fun x => existsb (String.eqb x) b) a && forallb (fun x => existsb (String.eqb x) a) b.
+
+(* model = observation *)
+Definition agrees_tb (tb : table) (c : c11case) : bool :=
+  match c with
+  | KPair loc fa fb raced => if raced then negb (pair_disciplined tb loc fa fb) else true
+  | KReasons h => hist_eqb h (reason_histogram tb)
+  | KMutable loc n tags =>
+      let r := late_reasons tb loc in (fst r =? n) && same_tags (snd r) tags
+  end.
+Definition agrees (c : c11case) : bool := agrees_tb lock_table c.
+
+(* the property on the observation: no race on this pair / no unjustified pair *)
+Definition C11_ok (c : c11case) : bool :=
+  match c with
+  | KPair _ _ _ raced => negb raced
+  | KReasons h => hist_get "none" h =? 0
+  | KMutable _ _ tags => negb (existsb (String.eqb "none") tags)
+  end.
 
 (* recorded pairs are outside the guard (they are reported through their race report) *)
 Definition C11_guard (c : c11case) : bool :=
-  match c with KPair loc fa fb _ => negb (pair_known known_pairs loc fa fb) end.
+  match c with
+  | KPair loc fa fb _ => negb (pair_known known_pairs loc fa fb)
+  | _ => true
+  end.
 
 Definition judge (c : c11case) : Z :=
   verdict (agrees c) (if C11_guard c then C11_ok c else true) None.
